@@ -558,35 +558,44 @@ func Check(o CheckOpts) int {
 	// found is merged and the expiry is dropped.
 	var confirmed []int64
 	for _, h := range agg.hangs {
-		one := o
-		one.Workers = 1
-		cmd := exec.Command(o.SelfExe, "worker", "-prop", o.Prop, "-tier", o.Tier, "-seed", strconv.FormatUint(o.Seed, 10),
-			"-w", "0", "-W", "1", "-start", strconv.FormatInt(h, 10), "-limit", strconv.FormatInt(h+1, 10))
-		cmd.Stderr = os.Stderr
-		cmd.Env = append(os.Environ(), "GOMAXPROCS=2")
-		outb, _ := cmd.Output()
+		// up to three attempts, one after the other: both clocks can jump when the virtual machine
+		// is paused (observed: snapshots of the sandbox), and a real non-terminating run expires
+		// every time
 		again, done := false, false
-		for _, line := range bytes.Split(outb, []byte{'\n'}) {
-			var m workerMsg
-			if json.Unmarshal(line, &m) != nil {
-				continue
-			}
-			switch m.T {
-			case "hang":
-				again = true
-			case "viol":
-				agg.viol = append(agg.viol, m)
-			case "sum":
-				done = true
-				for k, v := range m.ViolCount {
-					agg.ViolCount[k] += v
+		for attempt := 0; attempt < 3 && !done; attempt++ {
+			cmd := exec.Command(o.SelfExe, "worker", "-prop", o.Prop, "-tier", o.Tier, "-seed", strconv.FormatUint(o.Seed, 10),
+				"-w", "0", "-W", "1", "-start", strconv.FormatInt(h, 10), "-limit", strconv.FormatInt(h+1, 10))
+			cmd.Stderr = os.Stderr
+			cmd.Env = append(os.Environ(), "GOMAXPROCS=2")
+			outb, _ := cmd.Output()
+			again = false
+			var viols []workerMsg
+			for _, line := range bytes.Split(outb, []byte{'\n'}) {
+				var m workerMsg
+				if json.Unmarshal(line, &m) != nil {
+					continue
+				}
+				switch m.T {
+				case "hang":
+					again = true
+				case "viol":
+					viols = append(viols, m)
+				case "sum":
+					done = true
+					for k, v := range m.ViolCount {
+						agg.ViolCount[k] += v
+					}
 				}
 			}
+			if done {
+				agg.viol = append(agg.viol, viols...)
+			}
 		}
-		if again || !done {
+		if !done {
+			_ = again
 			confirmed = append(confirmed, h)
 		} else {
-			fmt.Printf("note: run %d exceeded the supervisor limit once but completes when repeated alone (busy machine); not a verdict\n", h)
+			fmt.Printf("note: run %d exceeded the supervisor limit once but completes when repeated alone (busy or paused machine); not a verdict\n", h)
 		}
 	}
 	agg.hangs = confirmed
